@@ -1171,3 +1171,76 @@ def check_ids(ctx, rep):
                 f"emitted under e.g. [{envtxt}]: torchtree stops with: Object with ID `{names[0]}' not found")
     rep.analysed['C19.R']['references_not_representable'] = n_skipped
     rep.analysed['C19.R']['references_checked'] = checked
+
+
+# ---------------------------------------------------------------------------
+# C19.G — a size is never None
+# ---------------------------------------------------------------------------
+def check_none_sizes(ctx, rep):
+    """`"full": [arg.X]` makes the size of a parameter out of a command-line option.  When X is a free-form option whose default is None, the emitted `"full": [null]` is
+    rejected by torch.full when the file is loaded.  For every such site and every combination of finite option values under which it is reached, check_arguments (which runs
+    before every builder) must reject X = None — i.e. some `parser.error(...)` is reached when check_arguments is specialised to that combination with X = None."""
+    flow = Flow(ctx)
+    readers = None
+    from props.c19 import Readers
+    col = Collector(ctx, flow, Readers(ctx))
+    reach = Reach(flow, col)
+    cond = Cond(reach)
+
+    class _Cmd:
+        values = set(ENTRY_POINTS(flow))
+    flow.fin[CMD] = _Cmd
+    guards = flow.fns.get('check_arguments', [])
+    if not guards:
+        raise AnalysisError('evolution.check_arguments not found')
+
+    def rejected(env) -> bool:
+        for g in guards:
+            e = flow.env(g.module, env, {}, {})
+            succ = specialised_reach(g.cfg, e)
+            live = reach_from(succ, [g.cfg.entry.id], g.by_id) | {g.cfg.entry.id}
+            for node in g.cfg.stmt_nodes():
+                st = node.stmt
+                if node.id in live and isinstance(st, ast.Expr) and isinstance(st.value, ast.Call) and isinstance(st.value.func, ast.Attribute) and st.value.func.attr == 'error':
+                    return True
+        return False
+    n = 0
+    for fi in col.all_infos():
+        if col.is_factory(fi) is not None:
+            continue
+        for d in ast.walk(fi.fn):
+            if not isinstance(d, ast.Dict) or enclosing_fn(d) is not fi.fn:
+                continue
+            for k, v in zip(d.keys, d.values):
+                if not (isinstance(k, ast.Constant) and k.value == 'full' and isinstance(v, (ast.List, ast.Tuple))):
+                    continue
+                for el in v.elts:
+                    opts = [x.attr for x in ast.walk(el) if isinstance(x, ast.Attribute) and isinstance(x.value, ast.Name) and x.value.id in ARG_NAMES]
+                    for o in opts:
+                        if o in flow.fin or flow.free_default.get(o, UNKNOWN) is not None:
+                            continue
+                        n += 1
+                        node = fi.stmt_node_of(d)
+                        key = f"{fi.module.name.replace('torchtree.', '')}.{fi.fn.name}::full=[arg.{o}]#{getattr(d, 'lineno', 0) - fi.fn.lineno}"
+                        if node is None:
+                            rep.undecided('C19.G', key, f"{fi.module.path}:{d.lineno}", 'statement of the literal not found in the CFG')
+                            continue
+                        try:
+                            dnf = dnf_simplify(dnf_and(cond.point(fi, node.id, ()), cond.feasible(fi)))
+                        except TooBig:
+                            rep.undecided('C19.G', key, f"{fi.module.path}:{d.lineno}", 'reach condition too large')
+                            continue
+                        bad = None
+                        for cube in sorted(dnf, key=repr):
+                            env = {**dict(cube), o: None}
+                            env.pop(CMD, None)
+                            if not rejected(env):
+                                bad = cube
+                                break
+                        envtxt = ', '.join(f"{k_}={v_!r}" for k_, v_ in (bad or ()))
+                        rep.check('C19.G', key, bad is None, f"{fi.module.path}:{d.lineno}", {'option': o, 'reach_cubes': len(dnf)},
+                                  f"{fi.fn.name} writes `--{o}` into the size of a parameter (\"full\": [arg.{o}]); the option is optional (default None) and under [{envtxt}] "
+                                  f"check_arguments does not reject a missing --{o}: the emitted file contains \"full\": [null] and torchtree stops in torch.full when loading it")
+    rep.analysed['C19.G'] = {'sites': n}
+    if n < 3:
+        rep.incomplete('C19.G', '*', '', f"only {n} option-valued sizes found")
